@@ -98,6 +98,14 @@ def run(fn, env, max_steps=500):
 from facts import canon, walk
 
 
+def _cdiv(a, b):
+    """C integer division (truncation toward zero), exact for integers of any size"""
+    if isinstance(a, int) and isinstance(b, int):
+        q = abs(a) // abs(b)
+        return q if (a >= 0) == (b >= 0) else -q
+    return int(a / b)
+
+
 def lv_name(n):
     n = strip(n)
     if isinstance(n, dict) and n.get("k") == "ref":
@@ -259,8 +267,8 @@ def evs(n, env, events=None):
             if op in ("==", "!="):
                 return int((a == b) == (op == "=="))        # a modelled pointer never equals an integer (NULL)
             raise Unsupported("pointer arithmetic " + op)
-        f = {"+": lambda: a + b, "-": lambda: a - b, "*": lambda: a * b, "/": lambda: int(a / b),
-             "%": lambda: a - int(a / b) * b, "<": lambda: int(a < b), ">": lambda: int(a > b),
+        f = {"+": lambda: a + b, "-": lambda: a - b, "*": lambda: a * b, "/": lambda: _cdiv(a, b),
+             "%": lambda: a - _cdiv(a, b) * b, "<": lambda: int(a < b), ">": lambda: int(a > b),
              "<=": lambda: int(a <= b), ">=": lambda: int(a >= b), "==": lambda: int(a == b),
              "!=": lambda: int(a != b), "&": lambda: a & b, "|": lambda: a | b}.get(op)
         if f is None:
@@ -346,7 +354,27 @@ def run_region(fn, start, stop_blocks, env, events=None, max_steps=5000, call_ho
             # bare expressions / conditions: evaluated at the branch
         i = 0
         c = blk.cond
-        if c is not None and len(blk.succs) == 2:
+        if blk.term == "switch" and c is not None:
+            v = evs(c, env, None)
+            nxt = dflt = None
+            for s_ in blk.succs:
+                if s_ is None:
+                    continue
+                lab = fn.blocks[s_].label or {}
+                if lab.get("k") == "case" and lab.get("lo") is not None and lab["lo"] <= v <= lab.get("hi", lab["lo"]):
+                    nxt = s_
+                elif lab.get("k") == "default":
+                    dflt = s_
+            if nxt is None:
+                nxt = dflt
+            if nxt is None:
+                # no default: control continues after the switch
+                cands = [s_ for s_ in blk.succs if s_ is not None and not (fn.blocks[s_].label or {}).get("k") in ("case", "default")]
+                if not cands:
+                    raise Unsupported("switch without a matching arm")
+                nxt = cands[0]
+            b = nxt
+        elif c is not None and len(blk.succs) == 2:
             b = blk.succs[0] if evs(c, env, None) else blk.succs[1]
         elif blk.succs:
             b = blk.succs[0]
